@@ -35,4 +35,12 @@ MODULES = {
                      ('out_row.ci_end_left', 'S', 'ci_end_left'), ('out_row.ci_end_right', 'S', 'ci_end_right')],
              ret='Y'),
     ]),
+    # theta_read_counts, per element: nbins * avg_bin_width * (2**log2 * avg_depth) / read_len, rounded half to even, a
+    # missing value counted as 0 (log2 is optional: NaN for a segment without a reference mean)
+    # (Proofs/FnExportTheta.v: C20_source_theta_count -- equals Model/Export.v theta_count with the defaults of the source)
+    'FnExportTheta': ('cnvlib/export.py', [
+        dict(name='theta_read_counts', coq='fn_theta_count',
+             params=[('log2_ratio', 'OQ'), ('nbins', 'Q'), ('avg_depth', 'Z'), ('avg_bin_width', 'Z'), ('read_len', 'Z')],
+             ret='Z'),
+    ]),
 }
